@@ -9,7 +9,7 @@ from sim.core import H
 ID = "C02"
 LEVEL = "exploration"
 BATCH = 6
-QUICK_WORLDS = 320
+QUICK_WORLDS = 480
 THOROUGH_BUDGET_S = 900
 RUN_TIMEOUT = 120
 CLASSES = ["kFlowDecomp", "MinFlowDecomp", "kFlowDecompCycles", "MinFlowDecompCycles", "kFlowDecomp", "MinFlowDecomp"]
